@@ -154,7 +154,8 @@ def compiled_check(chk, rng, jobs, tier):
             return {e: sum(x.count(e[len("IDX_ELEM_"):]) * v for x, v in zip(sp, vec)) for e in elems}
         cases, lines = [], []
         for trial in range(6 if tier == "quick" else 40):
-            ab = [rng.choice([1.0, 1e-4, 2e4]) * rng.uniform(0.1, 10.0) * 10 ** rng.randint(-6, 0) for _ in aliases]
+            scale = rng.choice([1.0, 1e-4, 2e4])       # fractional abundances or number densities
+            ab = [scale * rng.uniform(0.1, 10.0) * 10 ** rng.randint(-3, 0) for _ in aliases]
             mode = ["ratios", "identity", "other-vector"][trial % 3]
             if mode == "ratios":
                 opt, ref = 0, [rng.uniform(0.5, 2.0) * 10 ** rng.randint(-5, 0) for _ in elems]
@@ -175,7 +176,10 @@ def compiled_check(chk, rng, jobs, tier):
                           stderr=r.stderr[-800:])
             continue
         for (mode, ab, want), line in zip(cases, outs):
+            line, second = line.split("||")
             left, right = line.split("|")
+            f2 = second.split()
+            flag2, new2 = int(f2[0]), [float(x) for x in f2[1:1 + len(aliases)]]
             f = left.split()
             flag, new = int(f[0]), [float(x) for x in f[1:1 + len(aliases)]]
             lib = [float(x) for x in right.split()]
@@ -186,8 +190,12 @@ def compiled_check(chk, rng, jobs, tier):
                 chk.violation({"kind": "compiled-renorm-failed", "backend": b}, f"Naunet::Renorm returned {flag} / non-finite abundances", input=inp)
                 break
             t = totals(new)
-            bad = [e for e in elems if e != "IDX_ELEM_GRAIN" and t["IDX_ELEM_H"] > 0 and
-                   abs(t[e] / t["IDX_ELEM_H"] - want[e]) > 1e-8 * max(abs(want[e]), 1e-300)]
+            # binary64 linear solve: the error scales with the cancellation in the sums (the exact-rational oracle above
+            # settles exactness; this run is about the glue), so the tolerance is relative to the sum of magnitudes
+            mag = {e: sum(abs(x.count(e[len("IDX_ELEM_"):]) * v) for x, v in zip(sp, new)) for e in elems}
+            bad = [e for e in elems if e != "IDX_ELEM_GRAIN" and t["IDX_ELEM_H"] != 0 and
+                   abs(t[e] / t["IDX_ELEM_H"] - want[e]) > 1e-6 * max(abs(want[e]), mag[e] / abs(t["IDX_ELEM_H"]),
+                                                                      abs(want[e]) * mag["IDX_ELEM_H"] / abs(t["IDX_ELEM_H"]))]
             if bad:
                 chk.violation({"kind": "compiled-ratio-not-restored", "backend": b},
                               f"after Naunet::Renorm the ratio of {bad[0][9:]} to H nuclei is {t[bad[0]] / t['IDX_ELEM_H']!r}, the reference is {want[bad[0]]!r}",
@@ -202,7 +210,19 @@ def compiled_check(chk, rng, jobs, tier):
                 if x.kind == "electron" and y != o:
                     chk.violation({"kind": "electron-changed", "backend": b}, "electron abundance changed by Naunet::Renorm", input=inp)
                     break
-            if mode == "identity" and any(abs(y - o) > 1e-9 * abs(o) for o, y in zip(ab, new)):
+            # the stored reference survives a renormalisation: a second call restores the same ratios
+            t2 = totals(new2)
+            mag2 = {e: sum(abs(x.count(e[len("IDX_ELEM_"):]) * v) for x, v in zip(sp, new2)) for e in elems}
+            bad2 = [e for e in elems if e != "IDX_ELEM_GRAIN" and t2["IDX_ELEM_H"] != 0 and
+                    abs(t2[e] / t2["IDX_ELEM_H"] - want[e]) > 1e-6 * max(abs(want[e]), mag2[e] / abs(t2["IDX_ELEM_H"]),
+                                                                         abs(want[e]) * mag2["IDX_ELEM_H"] / abs(t2["IDX_ELEM_H"]))]
+            if flag2 != 0 or not all(math.isfinite(x) for x in new2) or bad2:
+                chk.violation({"kind": "compiled-second-renorm", "backend": b},
+                              f"a second Naunet::Renorm with the same object and reference does not restore the ratios "
+                              f"({bad2[0][9:] if bad2 else 'flag / non-finite'}: {t2[bad2[0]] / t2['IDX_ELEM_H'] if bad2 else flag2!r} "
+                              f"instead of {want[bad2[0]] if bad2 else 0!r})", input=inp)
+                break
+            if mode == "identity" and any(abs(y - o) > 1e-6 * abs(o) for o, y in zip(ab, new)):
                 chk.violation({"kind": "not-identity", "backend": b}, "ratios already match but Naunet::Renorm changed the abundances",
                               input=inp, after=dict(zip(aliases, new)))
                 break
